@@ -499,6 +499,84 @@ Section InstProofs.
     intros (H1 & H2 & H3 & H4) [[= -> -> ->]|I]; [lia|]. specialize (IH _ H4 I). lia.
   Qed.
 
+  (* ---- the line counter of the scan model is the coordinate specification of Pos/Coord ------------------ *)
+  Lemma skipn_nth_some {X} (l : list X) : forall lo x, nth_error l lo = Some x -> skipn lo l = x :: skipn (S lo) l.
+  Proof.
+    induction l as [|y l IH]; intros lo x; destruct lo as [|lo]; cbn [nth_error skipn]; try discriminate.
+    - intros [= ->]. reflexivity.
+    - intros E. rewrite (IH lo x E). reflexivity.
+  Qed.
+
+  Lemma skipn_nth_none {X} (l : list X) lo : nth_error l lo = None -> skipn lo l = [].
+  Proof. intros E. apply nth_error_None in E. apply skipn_all2. exact E. Qed.
+
+  Lemma count_nl_bridge n : forall lo,
+    Scan.count_nl isnlI lo n = PosBase.count_nl eqb nl (firstn n (skipn lo T)).
+  Proof.
+    induction n as [|n IH]; intros lo; [reflexivity|].
+    cbn [Scan.count_nl]. unfold ScanInst.isnlI at 1. rewrite IH.
+    destruct (nth_error T lo) as [x|] eqn:E.
+    - rewrite (skipn_nth_some T lo x E). cbn [firstn PosBase.count_nl]. reflexivity.
+    - rewrite (skipn_nth_none T lo E). rewrite (skipn_nth_none T (S lo)).
+      + rewrite !firstn_nil. reflexivity.
+      + apply nth_error_None. apply nth_error_None in E. lia.
+  Qed.
+
+  Lemma last_nl_bridge n : forall lo,
+    Scan.last_nl isnlI lo n = option_map (fun i => lo + i) (PosBase.rindex_nl eqb nl (firstn n (skipn lo T))).
+  Proof.
+    induction n as [|n IH]; intros lo; [reflexivity|].
+    cbn [Scan.last_nl]. rewrite IH. unfold ScanInst.isnlI.
+    destruct (nth_error T lo) as [x|] eqn:E.
+    - rewrite (skipn_nth_some T lo x E). cbn [firstn PosBase.rindex_nl].
+      destruct (PosBase.rindex_nl eqb nl (firstn n (skipn (S lo) T))) as [i|]; cbn [option_map].
+      + f_equal. lia.
+      + destruct (eqb x nl); cbn [option_map]; [f_equal; lia | reflexivity].
+    - rewrite (skipn_nth_none T lo E). rewrite (skipn_nth_none T (S lo)).
+      + rewrite !firstn_nil. reflexivity.
+      + apply nth_error_None. apply nth_error_None in E. lia.
+  Qed.
+
+  Lemma coord_bridge p : p <= length T ->
+    Z.of_nat (Scan.line_of isnlI p) = Coord.line_of eqb nl T p /\
+    Z.of_nat (Scan.lsp_of isnlI p) = Coord.line_start_of eqb nl T p.
+  Proof.
+    intros Lp. unfold Scan.line_of, Scan.lsp_of, Coord.line_of, Coord.line_start_of.
+    rewrite count_nl_bridge, last_nl_bridge. cbn [skipn]. split; [reflexivity|].
+    set (b := firstn p T). assert (Lb : length b = p) by (apply firstn_length_le; exact Lp).
+    destruct (Nat.eq_dec (PosBase.count_nl eqb nl b) 0) as [Z0|N0].
+    - rewrite (LineCounter_proofs.tail_len_nonl eqb nl b Z0), Lb.
+      destruct (PosBase.rindex_nl eqb nl b) as [i|] eqn:E; cbn [option_map]; [|lia].
+      exfalso. destruct (LineCounter_proofs.rindex_nl_split eqb nl b i E) as (b1 & x & b2 & Eb & _ & X & _).
+      rewrite Eb, LineCounter_proofs.count_nl_app in Z0. cbn [PosBase.count_nl] in Z0. rewrite X in Z0. lia.
+    - destruct (LineCounter_proofs.rindex_tail eqb nl b N0) as (i & -> & Li & ->). cbn [option_map]. lia.
+  Qed.
+
+  (* the mid-text lexer the loop starts - with the line-counter snapshot the loop itself computed - is the lexer
+     model of Pos/LexCoords on the window [match_start, wb), and yields exactly the main stream of the turn with
+     the coordinates of the full text *)
+  Theorem loop_lexer_exact it : In it (fst itersI) ->
+    let m := it_m it in
+    (Z.of_nat (lc_line (it_lc it)), Z.of_nat (lc_lsp (it_lc it)))
+      = (Coord.line_of eqb nl T m, Coord.line_start_of eqb nl T m) /\
+    LexCoords.lex_slice eqb nl scan ignore newline_types T (Z.of_nat m) (Z.of_nat wb)
+      (Some (Z.of_nat (lc_line (it_lc it)), Z.of_nat (lc_lsp (it_lc it)))) =
+    (map retok (main_stream lexI m), outI (snd (rawlex (S (wb - m)) [] m wb))).
+  Proof.
+    intros I m.
+    pose proof (scan_positions_global isnlI wa wb searchI lexI feed_okI end_choiceI end_trialI
+                  searchI_range lexI_chain Hwin) as G.
+    rewrite Forall_forall in G. specialize (G it I).
+    pose proof (scan_longest_wrt_tokens isnlI wa wb searchI lexI feed_okI end_choiceI end_trialI) as K.
+    rewrite Forall_forall in K. destruct (K it I) as (Sr & _). apply searchI_range in Sr. fold m in Sr, G.
+    destruct (coord_bridge m ltac:(lia)) as (B1 & B2).
+    assert (E : (Z.of_nat (lc_line (it_lc it)), Z.of_nat (lc_lsp (it_lc it)))
+                = (Coord.line_of eqb nl T m, Coord.line_start_of eqb nl T m)).
+    { rewrite G. cbn [Scan.coord lc_line lc_lsp]. rewrite B1, B2. reflexivity. }
+    split; [exact E|]. rewrite E.
+    rewrite (lex_slice_rawlex m wb _ ltac:(lia) HwbT (or_intror eq_refl)). reflexivity.
+  Qed.
+
   (* ---- the instantiated theorems ------------------------------------------------------------------ *)
   Theorem scan_value_eq_parse_inst s e v : In (s, e, v) scanI ->
     wa <= s /\ s < e /\ e <= wb /\
